@@ -75,7 +75,7 @@ let tc_of_letter t : n option =
   match t with
   | "b" -> Some tc_bool | "c" -> Some tc_int8 | "h" -> Some tc_int16 | "i" -> Some tc_int32
   | "l" -> Some tc_int64 | "f" -> Some tc_float | "d" -> Some tc_double | "P" -> Some tc_point
-  | "R" -> Some tc_rect | "s" -> Some tc_string | "X" -> Some tc_raw | "o" -> Some tc_pointer
+  | "R" -> Some tc_rect | "s" -> Some tc_string | "X" | "F" -> Some tc_raw | "o" -> Some tc_pointer
   | "g" -> Some tc_tag
   | _ -> if String.length t > 1 && t.[0] = 'x' then Some (n_of_int (int_of_string (String.sub t 1 (String.length t - 1)))) else None
 
@@ -86,9 +86,37 @@ let item_of t hex : item option =
   | "b" -> (match bs with b :: _ -> Some (IFix [if int_of_byte b <> 0 then byte_tab.(1) else byte_tab.(0)]) | [] -> None)
   | "c" | "h" | "i" | "l" | "f" | "d" | "P" | "R" -> Some (IFix bs)
   | "s" -> Some (IStr bs)
-  | "X" -> Some (IRaw bs)
+  | "X" | "F" -> Some (IRaw bs)
   | "o" | "g" -> Some (IOpaque (n_of_int (int_of_string ("0x" ^ (if hex = "" then "0" else hex)))))
   | _ -> if bs = [] then None else Some (IRaw bs)      (* AddData(.., numBytes==0) is B_BAD_ARGUMENT *)
+
+(* deterministic byte mutation shared with harness/msg_h.cpp (stream "g") *)
+let mutate (b0 : int list) (seed : int) : int list =
+  let x = ref (seed land 0x7fffffff) in
+  let next () = x := (!x * 1103515245 + 12345) land 0x7fffffff; !x lsr 12 in
+  let b = ref (Array.of_list b0) in
+  let nmut = 1 + (next () mod 2) in
+  for _ = 1 to nmut do
+    let len = Array.length !b in
+    let kind = next () mod 6 in
+    if kind = 0 then b := Array.sub !b 0 (next () mod (len + 1))
+    else if kind = 1 then (if len > 0 then begin let pos = next () mod len in let bit = next () mod 8 in !b.(pos) <- !b.(pos) lxor (1 lsl bit) end)
+    else if kind = 2 then (if len > 0 then begin let pos = next () mod len in let v = next () mod 256 in !b.(pos) <- v end)
+    else if kind = 3 then (if len >= 4 then begin
+        let pos = next () mod (len - 3) in
+        let tab = [| 0; 1; 2; 0xffffffff; 0x7fffffff; len; len - pos; 0x80000000; 12; 13 |] in
+        let v = tab.(next () mod 10) in
+        !b.(pos) <- v land 255; !b.(pos+1) <- (v lsr 8) land 255; !b.(pos+2) <- (v lsr 16) land 255; !b.(pos+3) <- (v lsr 24) land 255 end)
+    else if kind = 4 then (if len >= 4 then begin
+        let pos = next () mod (len - 3) in
+        b := Array.concat [Array.sub !b 0 pos; Array.sub !b pos 4; Array.sub !b pos (len - pos)] end)
+    else begin
+      let n = next () mod 8 in
+      let extra = Array.make n 0 in
+      for i = 0 to n - 1 do extra.(i) <- next () mod 256 done;
+      b := Array.append !b extra end
+  done;
+  Array.to_list !b
 
 let () =
   let lines = Ocommon.read_lines () in
@@ -97,7 +125,7 @@ let () =
     | None -> ()
     | Some p ->
       let head = String.sub line 0 p in
-      let in_domain = (head <> "n") in      (* stream "n": Strings with embedded NUL (outside wf, finding F9) *)
+      let in_domain = (head = "m") in   (* "n": Strings with embedded NUL (F9); "g": parsed from mutated bytes: outside wf *)
       let body = String.sub line (p+1) (String.length line - p - 1) in
       let ops = List.filter (fun s -> s <> "") (String.split_on_char ';' body) in
       let regs = Array.make 8 empty_msg in
@@ -133,6 +161,12 @@ let () =
           | ["cp"; r; s2] -> regs.(reg r) <- regs.(reg s2); true
           | ["u"; r] ->
               (match unflatten (flatten regs.(reg r)) with
+               | Ok m -> regs.(reg r) <- m; true
+               | _ -> false)
+          | ["um"; r; seed] ->
+              let bytes = List.map int_of_byte (flatten regs.(reg r)) in
+              let mb = List.map (fun i -> byte_tab.(i)) (mutate bytes (int_of_string seed)) in
+              (match unflatten mb with
                | Ok m -> regs.(reg r) <- m; true
                | _ -> false)
           | _ -> failwith ("bad op " ^ s) in
